@@ -150,6 +150,8 @@ impl InputList {
 
     pub fn from_reader(reader: &mut dyn BufRead) -> Result<Self> {
         let mut reader = Reader::from_reader(reader);
+        // '--' within a comment is not well-formed XML, and would be copied to the output
+        reader.config_mut().check_comments = true;
 
         let mut events = Vec::new();
         let mut buf = Vec::new();
@@ -168,6 +170,15 @@ impl InputList {
                     return Err(SvgdxError::ParseError(format!(
                         "XML error near line {src_line}: invalid UTF-8"
                     )));
+                }
+                if let Event::Start(e) | Event::Empty(e) = &ok_ev {
+                    // Malformed or duplicate attributes can't be represented (or
+                    // passed through) reliably, so are rejected up-front.
+                    if let Some(Err(err)) = e.attributes().find(|a| a.is_err()) {
+                        return Err(SvgdxError::ParseError(format!(
+                            "XML error near line {src_line}: {err}"
+                        )));
+                    }
                 }
                 ok_ev.as_ref().iter().filter(|&c| *c == b'\n').count()
             } else {
